@@ -184,8 +184,15 @@ impl BinCtx {
                 "listen" => {
                     // a trailing h: the addresses differ in the host only (127.0.0.1, 127.0.0.2, ... on ONE port)
                     let (val, same_port) = match val.strip_suffix('h') { Some(x) => (x, true), None => (val, false) };
+                    // a trailing 6: the last address is the IPv6 loopback, written the way URLs and most tools write it: [::1]:PORT
+                    let (val, v6) = match val.strip_suffix('6') { Some(x) => (x, true), None => (val, false) };
                     let n: usize = val.parse().unwrap_or(1);
-                    let list: Vec<String> = if same_port {
+                    let list: Vec<String> = if v6 {
+                        let mut l: Vec<String> = (0..n.saturating_sub(1)).map(|_| format!("127.0.0.1:{}", free_port())).collect();
+                        let p6 = TcpListener::bind("[::1]:0").map(|s| s.local_addr().unwrap().port()).unwrap_or_else(|_| free_port());
+                        l.push(format!("[::1]:{p6}"));
+                        l
+                    } else if same_port {
                         let p = free_port();
                         (0..n).map(|i| format!("127.0.0.{}:{}", i + 1, p)).collect()
                     } else {
@@ -259,6 +266,10 @@ impl BinCtx {
                     }
                     model.push(format!("versions={src}:{}", if val.is_empty() { "-" } else { val }));
                 }
+                "log" => {
+                    // RUST_LOG of the server process (default: error)
+                    envs.push(("RUST_LOG".into(), v.into()));
+                }
                 "days" => {
                     match src {
                         "default" => {}
@@ -281,7 +292,7 @@ impl BinCtx {
     fn spawn(&mut self) -> bool {
         self.kill();
         let mut cmd = Command::new(&self.bin);
-        cmd.args(&self.args).env_clear().env("RUST_LOG", "error").env("PATH", "/usr/bin:/bin");
+        cmd.args(&self.args).env_clear().env("RUST_LOG", "error").env("PATH", "/usr/bin:/bin");   // (a `log=` token of the configuration overrides RUST_LOG below)
         for (k, v) in &self.envs {
             cmd.env(k, v);
         }
